@@ -6,8 +6,12 @@
 package src
 
 import (
+	"bufio"
+	"bytes"
 	"errors"
 	"io"
+	"os"
+	"strings"
 )
 
 // ErrInjected is the injected I/O error.
@@ -97,4 +101,45 @@ func (s *Source) Read(p []byte) (int, error) {
 		}
 	}
 	return n, nil
+}
+
+// StdKinds lists the standard-library reader types that Std can build.
+var StdKinds = []string{"bytes.Reader", "bytes.Buffer", "strings.Reader", "bufio.Reader", "os.File", "io.SectionReader"}
+
+// Std builds a standard-library reader of the named dynamic type holding prefix unrelated bytes followed by
+// data, positioned just after the prefix (as when an image is embedded in a container or follows another
+// one in a stream).  remaining reports how many input bytes have not been handed out yet (-1 if unknown).
+// Code under test must not behave differently for any of these types or positions.
+func Std(kind string, prefix int, data []byte, scratchDir string) (r io.Reader, remaining func() int, cleanup func()) {
+	all := append(bytes.Repeat([]byte("CONTAINER-HEADER "), prefix/17+1)[:prefix], data...)
+	cleanup = func() {}
+	switch kind {
+	case "bytes.Buffer":
+		b := bytes.NewBuffer(all)
+		b.Next(prefix)
+		return b, b.Len, cleanup
+	case "strings.Reader":
+		sr := strings.NewReader(string(all))
+		_, _ = sr.Seek(int64(prefix), io.SeekStart)
+		return sr, sr.Len, cleanup
+	case "bufio.Reader":
+		br := bufio.NewReaderSize(bytes.NewReader(all), 64)
+		_, _ = br.Discard(prefix)
+		return br, func() int { return -1 }, cleanup
+	case "os.File":
+		_ = os.MkdirAll(scratchDir, 0o755)
+		f, err := os.CreateTemp(scratchDir, "src-*")
+		if err == nil {
+			_, _ = f.Write(all)
+			_, _ = f.Seek(int64(prefix), io.SeekStart)
+			return f, func() int { return -1 }, func() { f.Close(); os.Remove(f.Name()) }
+		}
+	case "io.SectionReader":
+		sr := io.NewSectionReader(bytes.NewReader(all), 0, int64(len(all)))
+		_, _ = sr.Seek(int64(prefix), io.SeekStart)
+		return sr, func() int { return -1 }, cleanup
+	}
+	br := bytes.NewReader(all)
+	_, _ = br.Seek(int64(prefix), io.SeekStart)
+	return br, br.Len, cleanup
 }
